@@ -84,7 +84,8 @@ fn extract_bracket_expr(pattern: &str) -> Option<(String, &str)> {
                     if matches!(delim, '.' | '=' | ':') {
                         let rest = chars.as_str();
                         let end = rest.find([delim, ']'])? + 2;
-                        expr.push_str(&rest[..end]);
+                        // An unterminated class name makes the whole bracket invalid.
+                        expr.push_str(rest.get(..end)?);
                         chars = rest[end..].chars();
                     }
                 }
